@@ -117,10 +117,25 @@ def roundtrip(g, n, kinds, sidp, hist=False, pad_sweep=False):
         yield build_session(f"{sidp}/{i}", k, calls, lens=(g.r.choice([0, 0, 1, 7]),), rt=True, g=g)
 
 
+def retry_sessions(g, n, kinds, sidp):
+    """a configuration that violates one acceptance rule is observed more than once (size, size, write, write): the
+    answer must not change, and should a later write succeed after all, the image is parsed back (the round-trip
+    properties speak about every packet the builder accepts)"""
+    r = g.r
+    for i in range(n):
+        k, calls = g.builder(r.choice(kinds), hist=r.random() < 0.5, bad=True, small=True)
+        obs = r.choice([[{"op": "calc_size"}, {"op": "calc_size"}], [{"op": "write_into", "rel": 0, "len": 64, "fill": 0}],
+                        [{"op": "calc_size"}, {"op": "get_padding"}, {"op": "calc_size"}]])
+        yield [reset(f"{sidp}/{i}")] + calls_to_ops(k, calls) + obs + [
+            {"op": "write_into", "rel": 0, "len": 64, "fill": 0}, {"op": "write_into", "rel": 4, "len": 64, "fill": 1},
+            {"op": "calc_size"}] + rt_parse(k, calls)
+
+
 def c02(g, tier):
     n = 1500 if tier == "quick" else 40000
     yield from long_history_sessions(g, "C02/long", ("sr", "rr"))
     yield from roundtrip(g, n, ["sr", "rr"], "C02/rand", hist=True)
+    yield from retry_sessions(g, 150 if tier == "quick" else 4000, ["sr", "rr"], "C02/retry")
     # 31 blocks with extreme loss fields
     for i, (cl, fl) in enumerate(itertools.product([[0, 0], [0, 1], [255, 65535]], [0, 1, 255])):
         for kind in ("sr", "rr"):
@@ -139,6 +154,7 @@ def c02(g, tier):
 def c03(g, tier):
     n = 1500 if tier == "quick" else 30000
     yield from roundtrip(g, n, ["sdes"], "C03/rand", hist=True)
+    yield from retry_sessions(g, 150 if tier == "quick" else 4000, ["sdes"], "C03/retry")
     yield from c03_extra(g, tier)
     # deterministic sweep: last item value length x padding, following chunk with leading-zero SSRC
     step = 1 if tier == "thorough" else 3
@@ -196,6 +212,7 @@ def c04(g, tier):
                              {"c": "subtype", "v": st}, {"c": "data", "v": g.bytes_(pl)}, {"c": "padding", "v": pad}]
                     yield build_session(f"C04/app/{st}/{nlen}/{pl}/{pad}", "app", calls)
     yield from roundtrip(g, 300 if tier == "quick" else 10000, ["bye", "app"], "C04/rand", hist=True)
+    yield from retry_sessions(g, 150 if tier == "quick" else 4000, ["bye", "app"], "C04/retry")
     yield from midsize_sessions(g, "C04/mid", ["sizes"])
 
 
@@ -205,6 +222,7 @@ def c05(g, tier):
         k, calls = g.fb(hist=True, big=(g.r.random() < (0.01 if tier == "quick" else 0.03)))
         yield build_session(f"C05/rand/{i}", k, calls, g=g)
     yield from midsize_sessions(g, "C05/mid", ["nack", "fir"])
+    yield from retry_sessions(g, 150 if tier == "quick" else 4000, ["fb"], "C05/retry")
     yield from nack_sibling_sessions(g, 60 if tier == "quick" else 2000, "C05/sib")
     yield from nack_regroup_sessions(g, "C05/regroup")
     yield from big_sli_sessions(g, "C05/bigsli")
@@ -254,6 +272,7 @@ def c06(g, tier):
         yield ops
     yield from midsize_sessions(g, "C06/mid", ["sdes", "nack", "fir", "firbig", "sizes"], quick=("c06" if tier == "quick" else False))
     yield from type0_sessions(g, "C06/type0")
+    yield from retry_sessions(g, 150 if tier == "quick" else 4000, ["sr", "rr", "sdes", "bye", "app", "unk", "fb", "custom"], "C06/retry")
     yield from nack_sibling_sessions(g, 80 if tier == "quick" else 2000, "C06/sib")
     yield from nack_tiny_universe_sessions(g, 10 if tier == "quick" else 100, "C06/tiny")
     yield from nack_regroup_sessions(g, "C06/regroup")
@@ -330,6 +349,7 @@ def c16(g, tier):
     for i in range(n):
         k, calls = any_builder(g, hist=False, bad_p=0.5, small=(g.r.random() < 0.7), compound_p=0.12)
         yield build_session(f"C16/rand/{i}", k, calls, lens=(0,), rt=False, g=g)
+    yield from retry_sessions(g, 200 if tier == "quick" else 5000, ["sr", "rr", "sdes", "bye", "app", "unk", "fb", "custom"], "C16/retry")
     # limits from both sides
     i = 0
     for kind in ("sr", "rr"):
@@ -411,6 +431,8 @@ def c20(g, tier):
             adds.insert(r0.randrange(len(adds) + 1), [r0.choice(adds)[0], r0.randrange(256)])   # re-add an SSRC somewhere
         calls = [{"c": "new", "fci": {"f": "fir", "adds": adds}, "owned": r0.random() < 0.5}]
         yield build_session(f"C20/firlong/{i}", "pfb", calls, rt=True)
+    yield from midsize_sessions(g, "C20/mid", ["fir"])
+    yield from retry_sessions(g, 150 if tier == "quick" else 4000, ["sr", "rr", "sdes", "bye", "app", "unk", "fb", "custom"], "C20/retry")
     for i in range(n):
         r = g.r
         if r.random() < 0.1:
@@ -452,10 +474,20 @@ def midsize_sessions(g, sidp, what, quick=False):
             yield build_session(f"{sidp}/nackwords/{k}", "tfb", calls, rt=True)
         calls = [{"c": "new", "fci": {"f": "nack", "adds": [(60000 + i) % 65536 for i in range(4400)]}, "owned": True}]
         yield build_session(f"{sidp}/nackrun/4400", "tfb", calls, rt=True)
+        # gap-free runs whose span reaches the top of the 16-bit sequence space (the longest runs there are), the
+        # whole space, and the set that needs the largest number of (PID, BLP) words
+        for (lo, hi, step, nm) in ((0, 65519, 1, "run0"), (16, 65535, 1, "run16"), (0, 65535, 1, "all"), (3, 65535, 17, "sparse")):
+            calls = [{"c": "new", "fci": {"f": "nack", "adds": list(range(lo, hi + 1, step))}, "owned": nm == "all"}]
+            yield build_session(f"{sidp}/nackmax/{nm}", "tfb", calls, rt=(nm in ("run0", "sparse")))
     if "fir" in what:
         for k in (255, 256, 257, 300):
             adds = [[[i // 7, (i * 37) % 65536], i % 256] for i in range(k)]
             yield build_session(f"{sidp}/fir/{k}", "pfb", [{"c": "new", "fci": {"f": "fir", "adds": adds}, "owned": False}], rt=True)
+        for k in (257, 300, 600):                  # SSRCs added again after more than 255 / 511 others
+            adds = [[[i // 7, (i * 37) % 65536], i % 256] for i in range(k)]
+            for j in (k - 1, 256, 7, 280 % k, 255, 513 % k):
+                adds.append([adds[j][0], (adds[j][1] + 101) % 256])
+            yield build_session(f"{sidp}/firagain/{k}", "pfb", [{"c": "new", "fci": {"f": "fir", "adds": adds}, "owned": k == 300}], rt=True)
         for k in (255, 256, 300):
             adds = [[i % 8192, (i * 5) % 8192, i % 64] for i in range(k)]
             yield build_session(f"{sidp}/sli/{k}", "pfb", [{"c": "new", "fci": {"f": "sli", "adds": adds}, "owned": True}], rt=True)
@@ -589,6 +621,23 @@ def reparse_sessions(g, n, sidp):
             ops += [{"op": "cnext"}] * r.randrange(1, k + 2)
         ops += [{"op": "cparse", "b": bad}] + [{"op": "cnext"}] * 3 + [{"op": "cparse", "b": b}, {"op": "cnext"}]
         yield ops
+        # the other way round: a datagram whose chain breaks at its last tile, then a well-formed one of the same
+        # length that starts with the same packet but is cut differently behind it, then the broken one again
+        if len(tiles) >= 3:
+            trunc = list(b)
+            trunc[tiles[-1][0] + 3] = (trunc[tiles[-1][0] + 3] + r.choice([1, 3])) % 256
+            first = b[:tiles[0][1]]
+            rest = len(b) - len(first)
+            other = list(first)
+            while rest > 0:
+                t2 = r.choice([x for x in T if len(x) <= rest])
+                other += t2
+                rest -= len(t2)
+            ops = [reset(f"{sidp}/regroup/{i}"), {"op": "cparse", "b": trunc}]
+            if r.random() < 0.5:
+                ops += [{"op": "cnext"}]
+            ops += [{"op": "cparse", "b": other}] + [{"op": "cnext"}] * r.randrange(0, 4) + [{"op": "cparse", "b": trunc}, {"op": "cparse", "b": b}, {"op": "cnext"}]
+            yield ops
         # a compound iterated to its end (last tile of an unknown type), then a misframed string for a typed parser
         kind = r.choice(TYPED)
         mn = MINLEN[kind]
@@ -708,6 +757,28 @@ def huge_direct_sessions(g, sidp):
         yield [reset(f"{sidp}/pli/{ln}"), {"op": "parse", "kind": "pli", "b": {"rep": 0, "n": ln}}]
         b = hdr(2, False, 1, 206, (12 + ln) // 4 - 1) + [0, 0, 0, 1, 0, 0, 0, 2] + [0] * ln
         yield [reset(f"{sidp}/pfb1/{ln}"), {"op": "parse", "kind": "pfb", "b": b}]
+
+
+def max_packet_sessions(g, sidp, op="parse_all", kinds=("app", "unk", "rr", "pfb")):
+    """single packets of the largest representable size (length field 0xffff: 262144 bytes) and one word less,
+    unpadded and padded, through the generic parser, every typed parser and the conversions"""
+    for nm in kinds:
+        for total in (262144, 262140):
+            for pad in (0, 8):
+                if nm == "app":
+                    b = hdr(2, pad > 0, 3, 204, total // 4 - 1) + [0, 1, 2, 3, 65, 66, 67, 68] + [5] * (total - 12)
+                elif nm == "unk":
+                    b = hdr(2, pad > 0, 0, 77, total // 4 - 1) + [6] * (total - 4)
+                elif nm == "rr":
+                    b = hdr(2, pad > 0, 1, 201, total // 4 - 1) + [9, 8, 7, 6] + [3] * 24 + [7] * (total - 32)
+                else:
+                    b = hdr(2, pad > 0, 15, 206, total // 4 - 1) + [0, 0, 0, 1, 0, 0, 0, 2] + [82, 69, 77, 66] + [1] * (total - 16)
+                if pad:
+                    b[-pad:] = [0] * (pad - 1) + [pad]
+                o = {"op": op, "b": b}
+                if op == "parse":
+                    o["kind"] = {"app": "app", "unk": "unknown", "rr": "rr", "pfb": "pfb"}[nm]
+                yield [reset(f"{sidp}/{nm}/{total}/{pad}"), o]
 
 
 def nack_tiny_universe_sessions(g, n, sidp):
@@ -1105,6 +1176,7 @@ def c01(g, tier):
     yield from padding_count_sweep(g, "C01/padcnt")
     yield from bye_body_sweep(g, "C01/bye")
     yield from huge_direct_sessions(g, "C01/huge")
+    yield from max_packet_sessions(g, "C01/max", kinds=("app", "pfb"))
     yield from afb_sessions(g, "C01/afb", op="parse_all")
     yield from big_sli_sessions(g, "C01/bigsli")
 
@@ -1119,6 +1191,7 @@ def c08(g, tier):
     yield from padding_count_sweep(g, "C08/padcnt")
     yield from bye_body_sweep(g, "C08/bye")
     yield from big_inputs(g, "C08/big", 0)
+    yield from max_packet_sessions(g, "C08/max")
 
 
 def fixed_layout_bodies(g, n, sidp):
@@ -1157,6 +1230,7 @@ def c09(g, tier):
     yield from count_body_sweep(g, "C09/cnt")
     yield from padding_count_sweep(g, "C09/padcnt")
     yield from bye_body_sweep(g, "C09/bye")
+    yield from max_packet_sessions(g, "C09/max", op="parse", kinds=("app", "rr"))
     yield from fixed_layout_bodies(g, 4000 if q else 100000, "C09/body")
     for i in range(800 if q else 20000):
         k, calls = g.builder(g.r.choice(["sr", "rr", "app", "bye", "tfb", "pfb", "unk"]), small=g.r.random() < 0.5)
@@ -1209,6 +1283,7 @@ def c12(g, tier):
     yield from afb_sessions(g, "C12/afb", op="parse_all")
     yield from reparse_sessions(g, 150 if q else 4000, "C12/reparse")
     yield from count_body_sweep(g, "C12/cnt")
+    yield from max_packet_sessions(g, "C12/max")
 
 
 def c13(g, tier):
@@ -1358,6 +1433,7 @@ def c18(g, tier):
     yield from bye_body_sweep(g, "C18/bye")
     yield from huge_direct_sessions(g, "C18/huge")
     yield from big_inputs(g, "C18/big", 0)
+    yield from max_packet_sessions(g, "C18/max", kinds=("unk", "rr"))
 
 
 def c19(g, tier):
